@@ -22,7 +22,46 @@ def run_property(prop, tier, seed, only=None):
         rep.broken.append('internal error: %r\n%s' % (e, traceback.format_exc()[-1500:]))
     if only is not None:
         return rep
+    if tier == 'thorough' and not os.environ.get('HEXSA_NO_SENSITIVITY') and not rep.broken:
+        try:
+            sensitivity(prop, rep)
+        except Exception as e:       # sensitivity results are evidence only; they never change the verdict
+            rep.note('sensitivity bank could not be run: %r' % (e,))
     return rep.finish()
+
+
+def sensitivity(prop, rep):
+    """Thorough tier: apply every kept seeded change of this property to a scratch copy of the current tree (outside /repo and /verif,
+    removed afterwards) and run this same check on it.  Recorded in the evidence; never turns a clean tree into a failure."""
+    import glob, shutil, subprocess, tempfile, re
+    from .frontend import REPO, VERIF
+    seeds = sorted(glob.glob(os.path.join(VERIF, 'seeded', prop + '-*', 'patch.diff')))
+    results = []
+    for sp in seeds:
+        name = os.path.basename(os.path.dirname(sp))
+        scratch = tempfile.mkdtemp(prefix='hexsa-sens-')
+        try:
+            subprocess.run('git -C %s ls-files -z | (cd %s && xargs -0 cp --parents -t %s)' % (REPO, REPO, scratch), shell=True, check=True,
+                           stdout=subprocess.DEVNULL, stderr=subprocess.DEVNULL)
+            r = subprocess.run(['patch', '-p1', '-s', '-i', sp], cwd=scratch, capture_output=True, text=True)
+            if r.returncode != 0:
+                results.append({'seed': name, 'result': 'patch does not apply to the current tree'})
+                continue
+            ev = os.path.join(scratch, '.ev')
+            env = dict(os.environ, HEXSA_REPO=scratch, HEXSA_EVIDENCE_DIR=ev, HEXSA_NO_SENSITIVITY='1', VERIF_TIER='quick')
+            r = subprocess.run([sys.executable, '-m', 'hexsa.check', prop, '--tier', 'quick'], cwd=VERIF, env=env, capture_output=True, text=True)
+            m = re.search(r'(\d+) violations', r.stdout)
+            first = next((l.strip() for l in r.stdout.splitlines() if l.startswith('  ' + prop)), '')
+            results.append({'seed': name, 'exit': r.returncode, 'violations': int(m.group(1)) if m else None,
+                            'result': {0: 'MISSED', 1: 'detected', 2: 'analysis broken'}.get(r.returncode, '?'), 'first_report': first[:240]})
+        finally:
+            shutil.rmtree(scratch, ignore_errors=True)
+    app = [x for x in results if 'exit' in x]
+    rep.extra['sensitivity'] = {'what': 'independently seeded property-breaking changes (seeded/*/patch.diff) applied to a scratch copy of the current tree',
+                                'mutants_applicable': len(app), 'mutants_detected': sum(1 for x in app if x['exit'] == 1), 'results': results}
+    for x in app:
+        if x['exit'] != 1:
+            rep.note('sensitivity: seeded change %s is not detected on the current tree (%s)' % (x['seed'], x['result']))
 
 
 def main(argv=None):
